@@ -196,6 +196,38 @@ def dwarf_base(rng, tier):
         out.append(("struct-dwarf-base-%d" % rep, s))
     return out
 
+def dwarf_limits(rng, tier):
+    """well-formed CFI whose numbers sit on the limits of i64: CFA offsets and save slots of +-2^63, 2^63-8, ... in every
+    combination (the translation into rules adds them up; the generic path adds them to register values)"""
+    out = []
+    I64 = [(1 << 63) - 1, (1 << 63) - 8, (1 << 63) - 16, -(1 << 63), -(1 << 63) + 8, (1 << 62), -(1 << 62), 8, 16, -8, -16, 0]
+    for rep in range(2 if tier == "quick" else 12):
+        arch = "x86" if rep % 2 == 0 else "a64"
+        R = ARCH_REGS[arch]
+        s = Script(arch, "may" if rep % 4 < 2 else "must")
+        rows = []
+        for reg in (R["sp"], R["fp"]):
+            for off in I64:
+                for v in I64[:7] + [-8, -16]:
+                    rows.append(dict(cfa=("r", reg, off), fp=("o", v), ra=("o", -8)))
+                    rows.append(dict(cfa=("r", reg, off), fp=("s",), ra=("o", v)))
+                    if rng.chance(1, 3):
+                        rows.append(dict(cfa=("r", reg, off), fp=("vo", v), ra=("vo", I64[rng.below(7)])))
+        rng.shuffle(rows)
+        rows = rows[: (100 if tier == "quick" else 200)]
+        fdes = [dict(start=0x1000 + 0x10 * i, len=0x10, rows=[(0, r)]) for i, r in enumerate(rows)]
+        s.module_dwarf("M", 0x100000, 0x100000 + 0x1000 + 0x10 * len(rows) + 0x100, 0x100000, 0, ["hdr", "eh", "debug"][rep % 3], fdes, rng, shuffle=True)
+        s.add("new U"); s.add("add U M"); s.add("newcache C")
+        s.mem("S", [(0x7000 + 8 * i, 0x101000 + 0x10 * (i % 64) + 1) for i in range(64)])
+        for i in range(len(rows)):
+            for mode in ("ip", "ra"):
+                a = 0x101000 + 0x10 * i + (1 if mode == "ra" else 0)
+                sp, fp = rng.choice([(0x7000, 0x7100), (M64 - 7, M64 - 15), (8, 0), ((1 << 63), (1 << 63) + 8)])
+                regs = s.regs_x86(a, sp, fp) if arch == "x86" else s.regs_a64(M64, 0x101041, sp, fp)
+                s.add("unwind U C %s %s %s S" % (mode, hx(a), regs), tag="struct:dwarf-limits:%s:%s" % (arch, mode))
+        out.append(("struct-dwarf-limits-%d" % rep, s))
+    return out
+
 def retarget_uinfo(line, funcs, miss, old_rva, new_rva):
     """make function entries that point at unwind info `miss` point at new_rva (both views)"""
     a_part, b_part = line.split(" B ", 1)
@@ -565,7 +597,7 @@ def analysis_stream(rng, tier):
 
 def generate(rng, tier):
     import suites
-    out = structural(rng, tier) + dwarf_base(rng, tier)
+    out = structural(rng, tier) + dwarf_base(rng, tier) + dwarf_limits(rng, tier)
     # valid DWARF worlds including modules without any FDE (model-compared)
     for w in range(4 if tier == "quick" else 40):
         nm, s = suites.dwarf_world(rng, "x86" if w % 2 == 0 else "a64", nmods=3, nf=3, nprobes=30, policy="may" if w % 4 < 2 else "must")
